@@ -58,7 +58,9 @@ Plugins == {"python", "rust", "dotnet", "testdata", "probe"}
 (***************************************************************************)
 VARIABLES svCase, svL
 Cases == {[c |-> "eq", kind |-> k] : k \in StructuralKinds \cup AnnotationKinds \cup {"same", "same_full"}}
-         \cup {[c |-> "gate", kind |-> k, target |-> t, plugin |-> p] : k \in BadKinds, t \in Targets, p \in Plugins}
+         \* the invalid file alone, or first of two files (EVERY model file is validated before anything else happens)
+         \cup {[c |-> "gate", kind |-> k, target |-> t, plugin |-> p, position |-> pos] :
+                 k \in BadKinds, t \in Targets, p \in Plugins, pos \in {"only", "first", "last"}}
          \cup {[c |-> "load", files |-> n] : n \in {"full", "trimmed", "two", "three", "extension"}}
          \* several operations on the SAME in-memory documents in one process: Load; Load; Eq; Load(first only)
          \cup {[c |-> "session", files |-> n] : n \in {"two", "three", "extension"}}
